@@ -206,9 +206,106 @@ def rule_phase(facts):
     return r
 
 
+PT = "glaredb_core::arrays::array::physical_type::PhysicalType"
+ROWMOD = "glaredb_core::arrays::row::row_layout::"
+
+
+def _pt_switches(fn):
+    """[(block, switch terminator)] that dispatch on the discriminant of a PhysicalType value"""
+    from .mir import disc_switches
+    out = []
+    for b, pl, t in disc_switches(fn):
+        ty = fn.locals[pl[0]].strip().lstrip("&") if not pl[1] else ""
+        if not ty:
+            o = fn.origin(["c", pl], at=b)
+            ty = ""
+        if ty == PT or (pl[1] and PT in str(pl)):
+            out.append((b, t))
+    return out
+
+
+def rule_heapsz(facts):
+    """The unsafe row writer copies non-inline varlen values into a heap block that was sized beforehand by safe code. For every
+    physical type whose writer arm touches the heap pointers, the sizing function must either add to `sizes` or fail: a type that
+    falls through to the do-nothing arm gets a zero-byte heap allocation and the writer copies past its end."""
+    from .mir import adt_variants
+    r = RuleResult("C16-HEAPSZ", "every physical type whose row-writer arm uses the heap pointers is sized (or rejected) by the heap-size computation", floor=2)
+    variants = adt_variants(facts, PT)
+    if not variants:
+        r.missing_anchor("PhysicalType enum")
+        return r
+    by_disc = {d: n for n, d in variants.items()}
+    writers, sizers = [], []
+    for rec in facts.fns_matching(lambda i: i.startswith(ROWMOD)):
+        if rec["dk"] == "Closure" or "::tests::" in rec["id"]:
+            continue
+        fn = Fn(rec)
+        sw = _pt_switches(fn)
+        if not sw:
+            continue
+        heap_args = [l for l in range(1, fn.argc + 1) if "heap" in fn.varnames.get(l, "")]
+        size_args = [l for l in range(1, fn.argc + 1) if fn.locals[l].replace(" ", "") == "&mut[usize]"]
+        if heap_args and rec.get("unsafe"):
+            writers.append((fn, sw, heap_args))
+        if size_args:
+            sizers.append((fn, sw, size_args))
+    if not writers:
+        r.missing_anchor("unsafe row writer dispatching on PhysicalType with a heap-pointers parameter in arrays::row::row_layout")
+        return r
+    if not sizers:
+        r.missing_anchor("heap-size computation (fn with a `&mut [usize]` parameter dispatching on PhysicalType) in arrays::row::row_layout")
+        return r
+    heap_types = set()
+    for fn, sw, heap_args in writers:
+        r.functions.add(fn.id)
+        for b, t in sw:
+            tgt_of = {v: tg for v, tg in switch_edges(t)}
+            for d, name in by_disc.items():
+                tg = tgt_of.get(d, tgt_of.get(None))
+                region = fn.reachable_from(tg, avoid=[b])
+                for c in fn.calls():
+                    if c.bb in region and any(a[0] in ("c", "m") and fn.origin(a, at=c.bb)[0:2] == ("arg", h) for a in c.args for h in heap_args):
+                        heap_types.add(name)
+    if not heap_types:
+        r.missing_anchor("a writer arm that passes the heap pointers on")
+        return r
+    for fn, sw, size_args in sizers:
+        r.functions.add(fn.id)
+        writes = set()
+        for b, i, pl, rv, ln in fn.assigns():
+            if pl[1] and any(isinstance(p, list) and p[0] == "i" for p in pl[1]) and fn.origin(pl[0], at=b)[0:2] in [("arg", a) for a in size_args]:
+                writes.add(b)
+        for b, t in sw:
+            tgt_of = {v: tg for v, tg in switch_edges(t)}
+            for name in sorted(heap_types):
+                d = variants[name]
+                tg = tgt_of.get(d, tgt_of.get(None))
+                region = fn.reachable_from(tg, avoid=[b])
+                sized = bool(region & writes)
+                # rejected: the arm cannot get back to the dispatch nor to a normal return except through an error value
+                rejected = not sized and b not in fn.reachable_from(tg) and _only_err_exits(fn, region)
+                ok = sized or rejected
+                r.call_sites += 1
+                r.inst({"sizer": fn.id, "type": name, "sized": sized, "rejected": rejected}, ok)
+                if not ok:
+                    r.violate(fn.id, f"unsized-heap-type:{name}", f"the row writer copies {name} values into the heap block, but the heap-size computation neither adds "
+                              f"their length to `sizes` nor fails for {name}: the heap block is allocated too small and the unsafe copy writes past it",
+                              fn.rec["file"], t[5] if len(t) > 5 else fn.rec["line"])
+    return r
+
+
+def _only_err_exits(fn, region):
+    """no block of the region builds an Ok value into the return place"""
+    for b in region:
+        for s_ in fn.bbs[b]["s"]:
+            if s_[0] == "a" and s_[1] == [0, []] and s_[2][0] == "agg" and s_[2][1][0] == "adt" and s_[2][1][2] == "Ok":
+                return False
+    return True
+
+
 def run(ctx):
     facts = ctx["facts"]
-    res = [rule_cell(facts), rule_atomic(facts), rule_phase(facts)]
+    res = [rule_cell(facts), rule_atomic(facts), rule_phase(facts), rule_heapsz(facts)]
     return res
 
 
